@@ -184,14 +184,35 @@ impl TypeCollector {
     ) -> Vec<CommandContext> {
         let type_resolver = analyzer.get_type_resolver();
 
-        commands
+        let mut contexts: Vec<CommandContext> = commands
             .iter()
             .map(|cmd| {
                 CommandContext::new(config).from_command_info(cmd, visitor, &|rust_type: &str| {
                     type_resolver.borrow_mut().parse_type_structure(rust_type)
                 })
             })
-            .collect()
+            .collect();
+
+        // Different commands can map to the same identifiers (`ping` / `_ping`, `hash_sha256` /
+        // `hash_sha_256`): number the later ones so that every command keeps its own wrapper
+        // and its own parameter type
+        let mut used_names = std::collections::HashSet::new();
+        for context in &mut contexts {
+            let base_function = context.ts_function_name.clone();
+            let base_type = context.ts_type_name.clone();
+            let mut counter = 2;
+            while used_names.contains(&context.ts_function_name)
+                || used_names.contains(&context.ts_type_name)
+            {
+                context.ts_function_name = format!("{}{}", base_function, counter);
+                context.ts_type_name = format!("{}{}", base_type, counter);
+                counter += 1;
+            }
+            used_names.insert(context.ts_function_name.clone());
+            used_names.insert(context.ts_type_name.clone());
+        }
+
+        contexts
     }
 
     /// Create EventContext instances from EventInfo using the provided visitor
